@@ -60,7 +60,7 @@ def one_case(ctx, res, stream, files, verbose=False, preexisting=None, missing_a
     model_tape = mo["writes"][0][1] if mo["writes"] else None
     if (status, out) != (mo["status"], mo["out"]) or (status == "ok0") != (model_tape is not None) or (status == "ok0" and tape != model_tape):
         res.disagree(stream, case, {"status": mo["status"], "out": mo["out"], "wrote": model_tape is not None}, {"status": status, "out": out, "wrote": tape is not None})
-    others_changed = {k for k in set(before) | set(after) if k != "t.k7" and before.get(k) != after.get(k)}
+    others_changed = {k for k in set(before) | set(after) if k != "t.k7" and ((k in before) != (k in after) or before.get(k) != after.get(k))}
     if others_changed:
         res.violate(stream, "a file other than the archive was created or modified", case, sorted(others_changed), {"clause": "other_files"})
     if status == "ok0":
@@ -75,7 +75,8 @@ def one_case(ctx, res, stream, files, verbose=False, preexisting=None, missing_a
     else:
         if missing_at is None and enc < 21504:
             res.violate(stream, "a list shorter than the tape was refused", case, {"enc": enc, "status": status, "out": out}, {"clause": "capacity_under"})
-        if missing_at is None and "Too much data" not in out:
+        import common
+        if missing_at is None and "Too much data" not in out and "Too much data" not in common.LAST["stderr"]:      # a diagnostic, on either stream
             res.violate(stream, "failure without diagnostic", case, out, {"clause": "diagnostic"})
         if tape != preexisting:
             res.violate(stream, "failed creation wrote or altered the archive", case, {"had": None if preexisting is None else len(preexisting), "now": None if tape is None else len(tape)}, {"clause": "all_or_nothing"})
@@ -135,7 +136,7 @@ def refused_case(ctx, res, kind, position, verbose):
     case = {"kind": kind, "position": position, "archive": arc if not os.path.isabs(arc) else "<abs>/notes.bin", "sources": [s if not os.path.isabs(s) else "<abs>/notes.bin" for s in srcs]}
     st.see(case, nontrivial=True)
     res.count(f"refused:{kind}:{status}")
-    changed = sorted(k for k in set(before) | set(after) if before.get(k) != after.get(k))
+    changed = sorted(k for k in set(before) | set(after) if ((k in before) != (k in after) or before.get(k) != after.get(k)))
     if status == "ok0":
         res.violate("refused_source", "status 0 although a source cannot be archived (it is the archive itself / its name is not ascii)", case, out, {"clause": "refused_status", "kind": kind})
     if changed:
@@ -145,7 +146,8 @@ def refused_case(ctx, res, kind, position, verbose):
     mo = T.parse_outcome(drv([f"tape.inject {'v' if verbose else 'q'} {cps(arc)} {len(srcs)} " + " ".join(cps(s) for s in srcs)
                               + "".join(f" {cps(p)} {hx(c)}" for p, c in world)])[0])
     st.compared += 1
-    if mo["status"] != status or bool(mo["writes"]) != bool(changed):
+    # a refusal is a non-zero status: whether it is raised or returned with a message is the tool's business
+    if (mo["status"] == "ok0") != (status == "ok0") or bool(mo["writes"]) != bool(changed):
         res.disagree("refused_source", case, {"status": mo["status"], "wrote": bool(mo["writes"])}, {"status": status, "changed": changed})
 
 
@@ -180,7 +182,7 @@ def odd_source_case(ctx, res, kind, position, verbose):
     case = {"kind": kind, "position": position, "sources": srcs, "preexisting": pre is not None}
     st.see(case, nontrivial=True)
     res.count(f"odd_source:{kind}:{status}")
-    changed = sorted(k for k in set(before) | set(after) if before.get(k) != after.get(k))
+    changed = sorted(k for k in set(before) | set(after) if ((k in before) != (k in after) or before.get(k) != after.get(k)))
     if status != "ok0":
         if changed:
             res.violate("odd_source", "a failed creation wrote or altered a file", case, changed, {"clause": "all_or_nothing", "kind": kind})
